@@ -35,7 +35,24 @@ def gen_programs(tier: str, seed: int, run: Run | None = None) -> list[dict]:
             {"run": f"Gen/{cfg}", "distinct_states": data["distinct"], "states_generated": data["generated"],
              "depth": data["depth"], "programs": len(data["printed"])})
         run.coverage.setdefault("coverage_by_action", {})[f"Gen/{cfg}"] = data["coverage"]
-    return data["printed"]
+    # programs with TWO filled gaps: the pair space (3.3 million states) is sampled by random walks of the same spec
+    npairs = 25000 if tier == "quick" else 400000
+
+    def pairs():
+        res = tlc.must_ok(tlc.run("Gen", "Gen_pairs_sim.cfg", workers=1, timeout=3600,
+                                  extra=("-simulate", f"num={npairs}", "-depth", "6", "-seed", str(seed + 23))), "Gen pairs")
+        seen, out = set(), []
+        for p in res.printed:
+            k = json.dumps(p, sort_keys=True)
+            if k not in seen:
+                seen.add(k)
+                out.append(p)
+        return {"printed": out}
+    pd = tlc.cached(f"gen-pairs-{npairs}-{seed}-{tlc.spec_digest('Gen')}", pairs)
+    if run is not None:
+        run.coverage["tlc_runs"].append({"run": f"Gen/Gen_pairs_sim.cfg -simulate num={npairs} (two filled gaps)",
+                                         "programs": len(pd["printed"])})
+    return data["printed"] + pd["printed"]
 
 
 def make_cases(descs: list[dict], seed: int) -> tuple[list[dict], int]:
